@@ -15,7 +15,9 @@ Inductive smd :=
 | SMnone
 | SMset (tbl : list (Z * jv))               (* data["data"] = enc(node.data); return None *)
 | SMwrap (tbl : list (Z * jv))              (* data["data"] = [data["data"], enc(node.data)] *)
-| SMnew (tbl : list (Z * jv)) (keep : bool).  (* return a new dict {"data": enc, "x": 1[, "data_id"]} *)
+| SMnew (tbl : list (Z * jv)) (keep : bool)  (* return a new dict {"data": enc, "x": 1[, "data_id"]} *)
+| SMextra (tbl : list (Z * jv)).            (* data["t"] = enc(node.data), "data" left alone; the
+                                               decoder reads item["t"] (pinned-suite style) *)
 
 Fixpoint zlookup {X} (k : Z) (l : list (Z * X)) : option X :=
   match l with [] => None | (k', v) :: r => if Z.eqb k k' then Some v else zlookup k r end.
@@ -24,6 +26,7 @@ Definition enc_of (tbl : list (Z * jv)) (i : info) : jv :=
   match zlookup (i_obj i) tbl with Some v => v | None => JNull end.
 
 Definition k_x : text := [120].
+Definition k_t : text := [116].
 
 Definition sm_of (m : smd) : smapper :=
   match m with
@@ -34,6 +37,7 @@ Definition sm_of (m : smd) : smapper :=
   | SMnew tbl keep => fun i res =>
       [(k_data, enc_of tbl i); (k_x, JInt 1)] ++
       (if keep then match dget k_data_id res with Some v => [(k_data_id, v)] | None => [] end else [])
+  | SMextra tbl => fun i res => dset k_t (enc_of tbl i) res
   end.
 
 (* deserialisation: what Python makes of item["data"] (directly, or through the
@@ -46,6 +50,17 @@ Fixpoint jlookup {X} (k : jv) (l : list (jv * X)) : option X :=
 
 Definition dd_of (dt : list (jv * res info)) : dmapper :=
   dd_raw (fun v => match jlookup v dt with Some r => r | None => inr E_CRASH end).
+
+(* a decoder that reads other entries of the item: the table is keyed by the
+   item's own entries (everything but "children") *)
+Fixpoint dremove (k : text) (d : jdict) : jdict :=
+  match d with [] => [] | (k', v) :: r => if text_eqb k k' then dremove k r else (k', v) :: dremove k r end.
+
+Definition dd_head (dt : list (jv * res info)) : dmapper :=
+  fun d => match jlookup (JDict (dremove k_children d)) dt with Some r => r | None => inr E_CRASH end.
+
+Definition dd_for (m : smd) (dt : list (jv * res info)) : dmapper :=
+  match m with SMextra _ => dd_head dt | _ => dd_of dt end.
 
 Inductive case :=
 | CRound (f : forest) (m : smd) (subs : list Z) (dt : list (jv * res info)) (next : Z)
@@ -71,7 +86,7 @@ Definition run14 (c : case) : sx :=
                            | Some t => sx_jv (to_dict sm t)
                            | None => A (-1)
                            end) subs);
-          sx_load (tree_from_dict (dd_of dt) (Z.to_nat next) dump) ]
+          sx_load (tree_from_dict (dd_for m dt) (Z.to_nat next) dump) ]
   | CLoad obj dt next =>
       L [ sx_load (tree_from_dict (dd_of dt) (Z.to_nat next) obj) ]
   | CNode f calc target obj dt next =>
